@@ -1,6 +1,7 @@
 import VlsModel.Lemmas.EnforcementC03
 import VlsModel.Lemmas.Secrets
 import VlsModel.Lemmas.SecretsSound
+import VlsModel.Lemmas.EnforcementChain
 /-
 C03 — Counterparty commitments advance only over properly revoked predecessors.
 
@@ -154,13 +155,67 @@ theorem Secrets_store_sound {S : Type} [DecidableEq S] (F : Nat → S → S) (ss
   · have : 0 < N48 := by decide
     omega
 
-/-
-Still not proved (kept visible): `Secrets_store_complete` — secrets generated from one seed by the BOLT-3
-rule (`fromSeed F seed idx`) are always accepted by `provide`.  It follows from `Secrets_tree_law`
-(the check `derive F (fromSeed seed idx) pos old_idx = fromSeed seed old_idx`), but the bookkeeping that
-every stored slot shares the new index's bits above `pos` was not done; validated by the harness
-(seeded sequences are always accepted by the Rust store and by the model, all 49 slots).
--/
+/-- **Secrets_store_complete** (for every `F`): the secrets a counterparty derives from ONE seed by the
+    BOLT-3 rule (`fromSeed F seed idx` = LDK's `build_commitment_secret`), revealed in descending order from
+    index 2^48-1, are all accepted by `provide_secret`, and `get_secret` reproduces each of them. -/
+theorem Secrets_store_complete {S : Type} [DecidableEq S] (F : Nat → S → S) (seed : S) (k : Nat) (hk : k ≤ N48) :
+    ∃ st', provideDesc F [] N48 (seedDesc F seed N48 k) = some st' ∧
+      ∀ i, i < k → get F st' (N48 - 1 - i) = .some (fromSeed F seed (N48 - 1 - i)) := by
+  obtain ⟨st', h⟩ := provideDesc_complete F seed k N48 [] (fun j => fromSeed F seed j) (SInv_init F _)
+    (fun _ _ _ => rfl) hk
+  refine ⟨st', h, ?_⟩
+  intro i hi
+  have hlen := seedDesc_length F seed N48 k hk
+  have := Secrets_store_sound F _ st' h i (by omega)
+  rw [this, seedDesc_get]
+
+/-! ### C03_chain: the channel's store is the compact image of the accepted revocations -/
+
+/-- the invariant: after every request list the store of the channel is `provideDesc` of the list of the
+    accepted revocation secrets, one per revoked number (retries re-provide an old index and leave the
+    store as it is) -/
+theorem C03_chain_inv (F : Nat → Bytes → Bytes) (ops : List Op) :
+    Chain F (runH F init [] ops).1.mem (runH F init [] ops).2 :=
+  runChain F ops init [] L_init trivial (Chain_init F)
+
+/-- **C03_chain**: for every request list and every counterparty commitment `j` below the revocation
+    frontier there is an accepted revocation of `j` in the history whose secret the store still returns at
+    index `2^48 - 1 - j` — every accepted revocation is consistent with all earlier ones under the derivation
+    tree and none is ever lost.  (For every `F`.  A *retried* revocation is accepted only with a secret of
+    the same public point; that this is the same secret is injectivity of scalar multiplication, outside
+    the model.) -/
+theorem C03_chain (F : Nat → Bytes → Bytes) (ops : List Op) (j : Nat)
+    (hj : j < (runH F init [] ops).1.mem.cpRevoke) :
+    ∃ st sec, (runH F init [] ops).1.mem.secrets = some st ∧ AcceptedRev (runH F init [] ops).2 j sec ∧
+      get F st (INITIAL - j) = .some sec := by
+  obtain ⟨ss, st, a, b, c1, d, f⟩ := C03_chain_inv F ops
+  have hjl : j < ss.length := by omega
+  refine ⟨st, ss[j], a, f j hjl, ?_⟩
+  have := Secrets_store_sound F ss st b j hjl
+  have e : INITIAL - j = N48 - 1 - j := by have := INITIAL_succ; omega
+  rw [e]; exact this
+
+/-- the store of a reachable channel never exceeds 49 entries -/
+theorem C03_chain_size (F : Nat → Bytes → Bytes) (ops : List Op) :
+    ∃ st, (runH F init [] ops).1.mem.secrets = some st ∧ st.length ≤ 49 := by
+  obtain ⟨ss, st, a, b, _, _, _⟩ := C03_chain_inv F ops
+  refine ⟨st, a, ?_⟩
+  -- provideDesc is a fold of accepted provides
+  have key : ∀ (ss : List Bytes) (st0 : Store Bytes) (m : Nat) (st1 : Store Bytes),
+      st0.length ≤ 49 → provideDesc F st0 m ss = some st1 → st1.length ≤ 49 := by
+    intro ss
+    induction ss with
+    | nil => intro st0 m st1 h0 h; simp only [provideDesc, Option.some.injEq] at h; subst h; exact h0
+    | cons x rest ih =>
+      intro st0 m st1 h0 h
+      cases m with
+      | zero => simp [provideDesc] at h
+      | succ m =>
+        simp only [provideDesc] at h
+        cases hp : provide F st0 m x with
+        | none => rw [hp] at h; cases h
+        | some st2 => rw [hp] at h; exact ih st2 m st1 (provide_length F hp h0) h
+  exact key ss [] N48 st (by simp) b
 
 /-! ### Non-vacuity -/
 
@@ -173,6 +228,14 @@ example : ((runH shaF init [] [.setup, .signCp 0 10 0 true, .signCp 1 11 0 true,
 example : ((runH shaF init [] [.setup, .signCp 0 10 0 true, .signCp 1 11 0 true,
     .revokeCp 0 [1] 11, .signCp 1 12 0 true, .signCp 1 11 1 true, .signCp 1 11 0 true]).2.map (·.2.res)) =
     [.ok, .errPolicy, .errPolicy, .errPolicy, .ok, .ok, .ok] := by decide
+
+/-- C03_chain is not vacuous: two revocations accepted on a channel, frontier 2, both secrets in the store
+    (toy step function; the secrets chain: slot 0 holds 5 = F 0 of … is checked by `provide`) -/
+example : ((runH (fun b s => s ++ [UInt8.ofNat b]) init [] [.setup, .signCp 0 10 0 true, .signCp 1 11 0 true,
+    .revokeCp 0 [7, 0] 10, .signCp 2 12 0 true, .revokeCp 1 [7] 11]).1.mem.cpRevoke,
+   ((runH (fun b s => s ++ [UInt8.ofNat b]) init [] [.setup, .signCp 0 10 0 true, .signCp 1 11 0 true,
+    .revokeCp 0 [7, 0] 10, .signCp 2 12 0 true, .revokeCp 1 [7] 11]).2.map (·.2.res)).take 2) =
+    (2, [.ok, .ok]) := by decide
 
 /-- the store accepts and returns a two-level chain for an arbitrary toy step function -/
 example : (provide (fun b (s : Nat) => 2 * s + b + 1) [] 281474976710655 11).bind
